@@ -112,4 +112,5 @@ def run(tier):
     rep.assumptions = ["kill points are those of the runs executed (hook events and file-system mutations), not wall-clock "
                        "instants inside a system call", "Orbax 0.12.4 / tensorstore as the environment; local POSIX file system"]
     rep.extra["machinery_retries"] = list(ckptlib.RETRIES)
+    rep.extra["scenarios_skipped_reference_did_not_converge"] = list(ckptlib.SKIPPED)
     return rep.finish()
